@@ -38,7 +38,9 @@ RULE = (
 ASSUMPTIONS = [
     "documented modules = every module under eolib outside _generated whose name has no leading underscore",
     "public names of a module = its own top-level classes, functions and constants without leading underscore, restricted by __all__ when present",
-    "generated type names do not collide with package or module names of the static tree (such collisions are excluded by the spec generator as degenerate)",
+    "type names whose module name equals a documented package, module or function (Data, Net, Interleave, ...) ARE generated (only the class is "
+    "exported); only (directory, name) pairs that would put a module next to a package of the same name are excluded",
+    "type names equal to a name the generated modules themselves import or to a public class of the hand-written library (specgen.FORBIDDEN_TYPE_NAMES: Optional, Iterable, Union, EoWriter, SerializationError, Packet, ...) are not generated: identifiers colliding with generated code are degenerate per the properties; observed outside the explored domain: a struct named Optional next to an optional field makes the package unimportable",
 ]
 COMPONENTS = {
     "real": ["eolib package (static modules + generated tree)", "Python import system in a fresh interpreter per run", "real generator (in-process) per tree"],
